@@ -47,8 +47,22 @@ def resume(p, ctx):
     ctx.sig = (concrete_sig(M), ctx.c(p["k"]))
 
 
+def sim_then_remove(p, ctx):
+    """Cost accounting after the absence steps (given in any order) have been removed again."""
+    M = run_sim(p, ctx)
+    if M.exc is not None:
+        return
+    ok, r = ctx.call(M.project.remove_absence_time_list)
+    if not ok:
+        ctx.aborted = "remove raised"
+        return
+    M.run = dict(M.run, abs=[])  # no absence step is left in the logs
+    oracles.c07(M, ctx)
+    ctx.cover("after-remove")
+
+
 _sim_obligations = obligations
-REQUIRED_COVERS = {"any": profiles.REQUIRED["C07"] + ["resumed-inside-run"]}
+REQUIRED_COVERS = {"any": profiles.REQUIRED["C07"] + ["resumed-inside-run", "after-remove"]}
 
 
 def obligations(tier, seed):
@@ -60,6 +74,11 @@ def obligations(tier, seed):
         o2["params"] = [[n, max(lo, narrow[n][0]) if n in narrow and narrow[n][0] <= hi else lo, min(hi, narrow[n][1]) if n in narrow and narrow[n][0] <= hi else hi] for n, lo, hi in ob["params"]]
         o2["params"] = [[n, lo, hi] if n != "pa1" else [n, 3, 3] for n, lo, hi in o2["params"]] + [["k", 0, 6]]
         obs.append(o2)
+    for ob in profiles.p_cost(thorough, timeout=900 if thorough else 150):
+        if "fac=0" in ob["name"]:
+            pr = [[n, lo, hi] if n not in ("pa0", "pa1") else [n, 0, 4] for n, lo, hi in ob["params"]]
+            pr = [[n, lo, min(hi, 2)] if n in ("c0", "c1", "w0", "w1") else [n, lo, hi] for n, lo, hi in pr]
+            obs.append(dict(ob, harness="sim_then_remove", name="remove/" + ob["name"], params=pr, pre="pa0 != pa1", engine="zsym"))
     # unit_time = 2: the clock advances by two per step, the logs still have one entry per step
     for ob in profiles.p_cost(thorough, timeout=900 if thorough else 150):
         if "fac=0" not in ob["name"]:
